@@ -26,7 +26,7 @@ type fmtResult struct {
 func c15(args []string) {
 	c := chk.New("C15", "exploration", args)
 	c.Build(false)
-	c.Rule("in-process batches (subject mode 'fmt'): tasks are built through NewProc / SetOut / NewTask exactly as the library does at run time and Task.Command and the out-IP paths are compared with a reference implementation of docs/writing_workflows.md (placeholders replaced at every occurrence; basename, dirname, %suffix, s/a/b/ left to right; ../ rule for inputs; temp encoding of outputs; joined ports; Prepend) and of the README's default-name rule; exhaustive part: every guard-respecting modifier chain of length <= 2 over the value alphabets for i / p / t placeholders in commands and in output patterns; random part: 1-4 placeholders, repeated placeholders, chains <= 3, joined ports, two outputs; missing values (empty parameter, absent tag, absent input, empty tag) must end the child with non-zero status, one child per case. distinct_nontrivial = distinct (pattern, value) cases with at least one modifier or repeated placeholder whose result was compared")
+	c.Rule("in-process batches (subject mode 'fmt'): tasks are built through NewProc / SetOut / NewTask exactly as the library does at run time and Task.Command and the out-IP paths are compared with a reference implementation of docs/writing_workflows.md (placeholders replaced at every occurrence; basename, dirname, %suffix, s/a/b/ left to right; ../ rule for inputs; temp encoding of outputs; joined ports; Prepend) and of the README's default-name rule; exhaustive part: every guard-respecting modifier chain of length <= 2 over the value alphabets for i / p / t placeholders in commands and in output patterns; random part: 1-4 placeholders, repeated placeholders, chains <= 3, joined ports, two outputs; missing values (empty parameter, absent tag, absent input, empty tag) must end the child with non-zero status, one child per case; extensions that contain dots ({o:out|.txt.gz}), streaming {os:} placeholders, SetOut patterns below absolute / parent-relative / nested directories. distinct_nontrivial = distinct (pattern, value) cases with at least one modifier or repeated placeholder whose result was compared")
 	c.Assume("only what the documentation fixes is judged: s/a/b/ with <= 1 occurrence of a, %suffix shorter than the value, basename / dirname on values containing '/' without trailing '/'")
 	rng := c.Rand("c15")
 	var cases []*gen.FmtCase
